@@ -106,10 +106,15 @@ func IsPlain(x float64) bool {
 // Code unit alphabets (DESIGN §3 pool P).
 var (
 	ASCIIUnits  = []uint16{'a', 'b', 'c', 'A', 'Z', '0', '9', ' ', '-', '_', '.', '!', '~', '*', '\'', '(', ')', ';', '/', '?', ':', '@', '&', '=', '+', '$', ',', '#', '%', '"', '\\', '<', '>', '[', ']', '{', '}', '|', '^', '`', '\t', '\n', '\r', 0x00, 0x1f, 0x7f}
-	Latin1Units = []uint16{0x80, 0x9f, 0xa0, 0xa9, 0xb5, 0xc0, 0xdf, 0xe9, 0xf7, 0xff}
-	BMPUnits    = []uint16{0x100, 0x131, 0x17f, 0x3a3, 0x3c2, 0x3c3, 0x7ff, 0x800, 0x1e9e, 0x2028, 0x2029, 0x20ac, 0x3000, 0x4e2d, 0xd7ff, 0xe000, 0xfeff, 0xfffd, 0xfffe, 0xffff}
-	// astral characters as (high, low) pairs: U+10000, U+1D4B3, U+1F600, U+10FFFF
-	AstralPairs = [][2]uint16{{0xd800, 0xdc00}, {0xd835, 0xdcb3}, {0xd83d, 0xde00}, {0xdbff, 0xdfff}}
+	Latin1Units = []uint16{0x80, 0x85, 0x9f, 0xa0, 0xa9, 0xaa, 0xb2, 0xb5, 0xbd, 0xc0, 0xdf, 0xe9, 0xf7, 0xff}
+	// BMPUnits includes characters on which the Go predicates a developer might reach for (unicode.IsDigit,
+	// IsNumber, IsLetter, IsSpace, IsUpper) disagree with the ASCII-only sets of ES5: decimal digits of other
+	// scripts (U+0660, U+0669, U+0966, U+0E50, U+FF10, U+FF19), other numerics (U+2167), letters (U+03B1, U+0430,
+	// U+FF21, U+212A, U+0130) and spaces (U+1680, U+2003). U+180E is left out on purpose: it was a space separator (Zs) up to Unicode 6.2 and is a format
+	// character since 6.3, so whether it is WhiteSpace is up to the implementation (ES5.1 7.2: "Unicode 3.0 or later").
+	BMPUnits = []uint16{0x100, 0x130, 0x131, 0x17f, 0x3a3, 0x3b1, 0x3c2, 0x3c3, 0x430, 0x660, 0x669, 0x7ff, 0x800, 0x966, 0xe50, 0x1680, 0x1e9e, 0x2003, 0x2028, 0x2029, 0x20ac, 0x212a, 0x2167, 0x3000, 0x4e2d, 0xd7ff, 0xe000, 0xfeff, 0xff10, 0xff19, 0xff21, 0xfffd, 0xfffe, 0xffff}
+	// astral characters as (high, low) pairs: U+10000, U+10400 (a cased letter), U+1D4B3, U+1D7CE (a decimal digit), U+1F600, U+20000, U+10FFFF
+	AstralPairs = [][2]uint16{{0xd800, 0xdc00}, {0xd801, 0xdc00}, {0xd835, 0xdcb3}, {0xd835, 0xdfce}, {0xd83d, 0xde00}, {0xd840, 0xdc00}, {0xdbff, 0xdfff}}
 )
 
 // Units16 draws a well-formed UTF-16 string (no lone surrogates) of at most maxUnits code units
